@@ -30,12 +30,18 @@ let () =
         let osidx = nats ',' (g "osidx") in
         let use = g "use" = "1" in
         let total = int_of_nat (total_pus topo) in
+        let full = g "mask" = "full" in
+        let phys = if full then [] else nats ',' (g "mask") in
         let pmres =
-          if g "mask" = "full" then Ok (fun i -> int_of_nat i < total)
-          else set_process_mask topo osidx (nats ',' (g "mask")) in
+          if full then Ok (fun i -> int_of_nat i < total)
+          else set_process_mask topo osidx phys in
         (match pmres with
          | Err e -> Printf.printf "OUT BIND %s err=%s\n" id (err_name e)
          | Ok pm ->
+           (* the converted (logical) process mask: topology::get_cpubind_mask_main_thread() *)
+           let pmbits = if full then mask_bits topo pm else
+               (match process_mask_bits topo osidx phys with Ok l -> l | Err _ -> failwith "pm") in
+           let pmhex = hex_of_bits pmbits in
            let n = match g "n" with
              | "all" -> default_threads topo use pm
              | "cores" -> default_cores topo use pm
@@ -49,8 +55,11 @@ let () =
            (* --pika:cores (max_cores): defaults to the thread count *)
            let mc = match List.assoc_opt "cores" kv with
              | Some c -> nat_of_int (int_of_string c) | None -> n in
-           (match startup topo b use pm n mc specs with
-            | Err e -> Printf.printf "OUT BIND %s err=%s\n" id (err_name e)
+           (* the theorem's function (set_process_mask, then startup) when the user gave a mask *)
+           let res = if full then startup topo b use pm n mc specs
+             else startup_os topo osidx phys b use n mc specs in
+           (match res with
+            | Err e -> Printf.printf "OUT BIND %s err=%s pm=%s\n" id (err_name e) pmhex
             | Ok st ->
               let ws = st.st_workers in
               let nw = List.length ws in
@@ -65,7 +74,7 @@ let () =
                   let c = List.length p in
                   let s = Printf.sprintf "%s:%d:%d" (if k = 0 then "default" else "p" ^ string_of_int k) !off c in
                   off := !off + c; s) st.st_pools) in
-              Printf.printf "OUT BIND %s ok n=%d exposed=%s w=%s pools=%s\n" id nw exs wstr pstr))
+              Printf.printf "OUT BIND %s ok pm=%s n=%d exposed=%s w=%s pools=%s\n" id pmhex nw exs wstr pstr))
       | _ -> ()
     done
   with End_of_file -> ()
